@@ -34,4 +34,5 @@ def queries(tier):
                      "ResourceManager('%s').GetResourceStream('%s', archives=%d): expected source %d (0 none, 1 loose, 2-3 VOL member, 4/6 CLM member, 5 loose); containing archive really contains the name" % (root, rq, arch, want)))
     qs.append(lq("resource_rooted_path", "h_resource_rooted", {"ROOT": ""}, "a rooted path is refused"))
     qs.append(lq("type_listing", "h_type_listing", {"ROOT": ""}, "GetAllFilenamesOfType: loose files, then archive members not already listed ignoring case; archives off: loose only"))
+    qs.append(lq("type_listing_two_archives", "h_type_listing_two", {"ROOT": ""}, "GetAllFilenamesOfType with two volumes holding a.txt / A.TXT and no loose file: listed once"))
     return qs
